@@ -81,4 +81,13 @@ TEXTS = {
                     "independently in the harness. Counter-example search with shrinking."),
         level_note=("Trusted: the harness's Gaussian cdf/quantile (erfc + Newton), its Gauss-Hermite rule (self-checked), rapidcheck. Monotonicity is examined "
                     "at the 0.1 resolution of the method; ill-conditioned covariance matrices (cond > 1e10) are inconclusive.")),
+    "C03": dict(
+        engine="rapidcheck",
+        technique="property-based testing (rapidcheck): generated structures/parameters/anisotropies/point sets; oracle = published closed forms with the harness's own anisotropic distance, symmetry/bound/compact-support predicates, eigenvalue test of covariance matrices (conditional for intrinsic structures)",
+        design_ref="DESIGN.md §5 C03",
+        level_text=("Exploration: tens of thousands (quick) to ~750 000 (thorough) generated models and point sets per run; values are compared with independent "
+                    "closed forms and every covariance matrix is tested for (conditional) positive semi-definiteness. Structures found invalid on the unchanged "
+                    "tree are recorded with their parameter region; everything else must pass. Search with shrinking, not a proof of validity."),
+        level_note=("Trusted: the formula table and rotation code of the harness, Eigen's symmetric eigen-solver (in the harness), std::cyl_bessel_*. d<=3, "
+                    "matrices up to 96x96; an invalid model whose negative eigenvalue only appears on larger or differently spaced point sets can be missed.")),
 }
